@@ -172,7 +172,11 @@ class BaseCircuitRunner(ABC, CircuitRunner):
                 f"{len(circuits_batch)}, length of n_samples: "
                 f"{len(samples_per_circuit)}."
             )
-        if any(n <= 0 for n in samples_per_circuit):
+        # The integer form is checked on its own: for an empty batch it is broadcast
+        # to an empty list, which would let a non-positive count through.
+        if (isinstance(n_samples, int) and n_samples <= 0) or any(
+            n <= 0 for n in samples_per_circuit
+        ):
             raise ValueError(
                 f"All numbers of samples have to be positive. Got: {n_samples}"
             )
